@@ -284,6 +284,7 @@ func executeAs(s *rt.Spec, scn *rt.Scenario, prop, regName string) *execResult {
 		env := rt.NewEnv(i, s, sc)
 		env.Race = prop == "C12"
 		env.Census = prop == "C03"
+		env.Solo = g == 1
 		run := &rt.Run{Env: env, Mode: prop}
 		res.runs[i] = run
 		ctx, cancel := context.WithCancel(rt.WithEnv(context.Background(), env))
